@@ -364,32 +364,180 @@ Proof.
   destruct (2 ^ 36 <? L) eqn:E3; [lia|]. destruct (2 ^ 26 <? L) eqn:E4; [lia|reflexivity].
 Qed.
 
-Lemma res_of_tlv_fatal_iff site t s :
-  res_of_tlv site t = Some (RFatal s) <-> in_oom_class t = true /\ s = F_ALLOC.
+(* ------------------------------------------------------------------ *)
+(* 7. snmp / ldap: tlvLengthsFit bounds every allocation of the libraries *)
+
+Definition bnd (B L : Z) : Prop := 0 <= L <= B.
+
+Lemma be_val_acc_nonneg : forall l acc, 0 <= acc -> 0 <= be_val_acc acc l.
+Proof. induction l as [|b r IH]; intros acc H; cbn [be_val_acc]; [exact H | apply IH; lia]. Qed.
+
+Lemma be_val_nonneg l : 0 <= be_val l.
+Proof. apply be_val_acc_nonneg; lia. Qed.
+
+Lemma cont_run_nonneg l : 0 <= cont_run l.
+Proof. induction l as [|b r IH]; cbn [cont_run]; [lia | destruct (128 <=? b)%N; lia]. Qed.
+
+Lemma gen_hdr_props maxoct b c i l :
+  gen_hdr maxoct b = Some (c, i, l) -> 2 <= i <= zlen b /\ 0 <= l.
 Proof.
-  destruct t as [| |L]; cbn [res_of_tlv in_oom_class].
-  - split; [discriminate | intros [H _]; discriminate].
-  - split; [discriminate | intros [H _]; discriminate].
-  - unfold alloc_verdict, MEM_SURE, MAXALLOC, MEM_SAFE.
-    destruct (L <? 0) eqn:E1; [cbn; split; [discriminate | intros [H _]; lia]|].
-    destruct (2 ^ 48 <? L) eqn:E2; [cbn; split; [discriminate | intros [H _]; lia]|].
-    destruct (2 ^ 36 <? L) eqn:E3.
-    + cbn. split; [intros H; inversion H; split; [lia | reflexivity] | intros [_ ->]; reflexivity].
-    + destruct (2 ^ 26 <? L) eqn:E4; cbn; (split; [discriminate | intros [H _]; lia]).
+  unfold gen_hdr. destruct b as [|b0 r]; [discriminate|].
+  set (i0 := if (N.land b0 31 =? 31)%N then 1 + cont_run r + 1 else 1).
+  assert (Hi0 : 1 <= i0) by (unfold i0; pose proof (cont_run_nonneg r); destruct (N.land b0 31 =? 31)%N; lia).
+  cbv zeta. destruct (zlen (b0 :: r) <=? i0) eqn:E0; [discriminate|].
+  set (lb := Z.of_N (nth (Z.to_nat i0) (b0 :: r) 0%N)).
+  destruct (lb =? 128) eqn:E1; [discriminate|].
+  destruct (128 <? lb) eqn:E2.
+  - destruct ((maxoct <? lb - 128) || (zlen (b0 :: r) <? i0 + 1 + (lb - 128))) eqn:E3; [discriminate|].
+    apply orb_false_iff in E3 as [_ E3]. intros H; inversion H; subst.
+    pose proof (be_val_nonneg (slice (b0 :: r) (i0 + 1) (i0 + 1 + (lb - 128)))). lia.
+  - intros H; inversion H; subst. unfold lb. lia.
 Qed.
 
-Lemma ldap_nest_fatal_iff seg rep s :
-  ldap_nest seg rep = Some (RFatal s) <-> STACK_SURE <= ldap_depth seg rep /\ s = F_STACK.
+Lemma gen_hdr_mono b x : gen_hdr 4 b = Some x -> gen_hdr 8 b = Some x.
 Proof.
-  unfold ldap_nest. destruct (STACK_SURE <=? ldap_depth seg rep) eqn:E.
-  - split; [intros H; inversion H; split; [lia | reflexivity] | intros [_ ->]; reflexivity].
-  - destruct (ldap_depth seg rep <=? STACK_SAFE); (split; [discriminate | intros [H _]; lia]).
+  unfold gen_hdr. destruct b as [|b0 r]; [discriminate|].
+  set (i0 := if (N.land b0 31 =? 31)%N then 1 + cont_run r + 1 else 1).
+  cbv zeta. destruct (zlen (b0 :: r) <=? i0); [discriminate|].
+  set (lb := Z.of_N (nth (Z.to_nat i0) (b0 :: r) 0%N)).
+  destruct (lb =? 128); [discriminate|].
+  destruct (128 <? lb); [|trivial].
+  destruct ((4 <? lb - 128) || (zlen (b0 :: r) <? i0 + 1 + (lb - 128))) eqn:E3; [discriminate|].
+  apply orb_false_iff in E3 as [E3 E4]. rewrite E4.
+  replace (8 <? lb - 128) with false by lia. trivial.
+Qed.
+
+Lemma tlv_hdr_props b c i l :
+  tlv_hdr b = Some (c, i, l) ->
+  gen_hdr 8 b = Some (c, i, l) /\ 2 <= i /\ 0 <= l /\ i + l <= zlen b.
+Proof.
+  unfold tlv_hdr. destruct (gen_hdr 4 b) as [[[c0 i0] l0]|] eqn:E; [|discriminate].
+  destruct (zlen b - i0 <? l0) eqn:El; [discriminate|]. intros H; inversion H; subst.
+  pose proof (gen_hdr_props _ _ _ _ _ E). split; [apply gen_hdr_mono; exact E | lia].
+Qed.
+
+Lemma zlen_skipn {A} n (l : list A) : zlen (skipn n l) <= zlen l.
+Proof. unfold zlen. rewrite skipn_length. lia. Qed.
+
+Lemma bnd_weaken B B' l : B <= B' -> Forall (bnd B) l -> Forall (bnd B') l.
+Proof. intros H. apply Forall_impl. unfold bnd. intros; lia. Qed.
+
+Lemma lib_allocs_nil fuel : lib_allocs fuel [] = [].
+Proof. destruct fuel; reflexivity. Qed.
+
+Lemma loop_bounded (inner : bytes -> bool) :
+  (forall c, inner c = true -> forall fuel, Forall (bnd (zlen c)) (lib_allocs fuel c)) ->
+  forall lf b, tlv_loop inner lf b = true -> forall fuel, Forall (bnd (zlen b)) (lib_allocs fuel b).
+Proof.
+  intros Hin. induction lf as [|lf IH]; intros b H fuel.
+  - destruct b; [rewrite lib_allocs_nil; constructor | cbn in H; discriminate].
+  - destruct b as [|x r]; [rewrite lib_allocs_nil; constructor|].
+    cbn [tlv_loop] in H.
+    destruct (tlv_hdr (x :: r)) as [[[c i] l]|] eqn:Eh; [|discriminate].
+    apply andb_true_iff in H as [Hc Hrest].
+    destruct (tlv_hdr_props _ _ _ _ Eh) as (Hg & Hi & Hl & Hfit).
+    destruct fuel as [|f]; [constructor|].
+    cbn [lib_allocs]. rewrite Hg.
+    replace (zlen (x :: r) - i <? l) with false by lia.
+    constructor; [unfold bnd; lia|].
+    apply Forall_app. split.
+    + destruct c; [|constructor].
+      apply (bnd_weaken (zlen (slice (x :: r) i (i + l)))).
+      * rewrite slice_length by lia. lia.
+      * apply Hin. exact Hc.
+    + apply (bnd_weaken (zlen (skipn (Z.to_nat (i + l)) (x :: r)))); [apply zlen_skipn|].
+      apply IH. exact Hrest.
+Qed.
+
+(* tlvLengthsFit(b, depth) = true: whatever the library walks in b, every length it
+   allocates is between 0 and len(b) *)
+Lemma fit_bounded : forall d b,
+  tlv_fit d b = true -> forall fuel, Forall (bnd (zlen b)) (lib_allocs fuel b).
+Proof.
+  induction d as [|d IH]; intros b H; [discriminate|].
+  cbn [tlv_fit] in H. exact (loop_bounded (tlv_fit d) IH (length b) b H).
+Qed.
+
+Lemma bounded_fine B l : B <= MEM_SAFE -> Forall (bnd B) l -> Forall (fun L => alloc_verdict L = 0%N) l.
+Proof.
+  intros HB. apply Forall_impl. unfold bnd. intros L HL. apply alloc_small_fine. lia.
+Qed.
+
+Lemma wf_nth l k : wf_bytes l = true -> (nth k l 0 < 256)%N.
+Proof.
+  revert k. induction l as [|b r IH]; intros k H; [destruct k; cbn; lia|].
+  cbn [wf_bytes forallb] in H. apply andb_true_iff in H as [Hb Hr].
+  destruct k; cbn [nth]; [unfold byteb in Hb; lia | apply IH; exact Hr].
+Qed.
+
+Lemma snmp_buf_len dg : wf_bytes dg = true -> zlen (snmp_buf dg) <= 257.
+Proof.
+  intros H. unfold snmp_buf, zlen. pose proof (wf_nth dg 1 H).
+  pose proof (firstn_le_length (2 + N.to_nat (nth 1 dg 0%N)) (dg ++ repeat 0%N (2 + N.to_nat (nth 1 dg 0%N)))). lia.
+Qed.
+
+Lemma snmp_never_fatal dg s : snmp_first dg <> Some (RFatal s).
+Proof. unfold snmp_first. destruct (_ <? _)%nat; [discriminate|]. destruct (tlv_lengths_fit _); discriminate. Qed.
+
+Lemma snmp_library_allocs_fine dg fuel :
+  wf_bytes dg = true -> snmp_first dg = None ->
+  Forall (fun L => alloc_verdict L = 0%N) (lib_allocs fuel (snmp_buf dg)).
+Proof.
+  intros Hwf H. unfold snmp_first in H. destruct (_ <? _)%nat; [discriminate|].
+  destruct (tlv_lengths_fit (snmp_buf dg)) eqn:Ef; [|discriminate].
+  apply (bounded_fine (zlen (snmp_buf dg))).
+  - pose proof (snmp_buf_len dg Hwf). unfold MEM_SAFE. lia.
+  - apply (fit_bounded 33). exact Ef.
+Qed.
+
+Lemma ldap_env_body_ok st n l buf :
+  0 <= n <= 6 -> ldap_env_body st n l = EOk buf ->
+  tlv_lengths_fit buf = true /\ zlen buf <= MAX_MSG + 6.
+Proof.
+  intros Hn. unfold ldap_env_body. destruct (MAX_MSG <? l) eqn:E1; [discriminate|].
+  destruct (zlen st <? n + l); [discriminate|].
+  destruct (tlv_lengths_fit _) eqn:Ef; [|discriminate]. intros H; inversion H; subst.
+  split; [exact Ef|]. unfold zlen.
+  pose proof (firstn_le_length (Z.to_nat (n + l)) st). unfold MAX_MSG in *. lia.
+Qed.
+
+Lemma ldap_envelope_ok st buf :
+  ldap_envelope st = EOk buf -> tlv_lengths_fit buf = true /\ zlen buf <= MAX_MSG + 6.
+Proof.
+  unfold ldap_envelope. destruct st as [|b0 [|b1 r]]; try discriminate.
+  destruct (N.land b0 31 =? 31)%N; [discriminate|].
+  destruct (Z.of_N b1 =? 128); [discriminate|].
+  destruct (128 <? Z.of_N b1) eqn:E.
+  - destruct (4 <? Z.of_N b1 - 128) eqn:E4; [discriminate|].
+    destruct (zlen r <? Z.of_N b1 - 128); [discriminate|].
+    apply ldap_env_body_ok. lia.
+  - apply ldap_env_body_ok. lia.
+Qed.
+
+Lemma ldap_never_fatal st s : ldap_first st <> Some (RFatal s).
+Proof. unfold ldap_first. destruct (ldap_envelope st); discriminate. Qed.
+
+Lemma ldap_library_allocs_fine st fuel :
+  ldap_first st = None ->
+  exists buf, ldap_envelope st = EOk buf /\ zlen buf <= MAX_MSG + 6 /\
+              Forall (fun L => alloc_verdict L = 0%N) (lib_allocs fuel buf).
+Proof.
+  unfold ldap_first. destruct (ldap_envelope st) as [| | |buf] eqn:E; try discriminate. intros _.
+  destruct (ldap_envelope_ok st buf E) as [Hf Hl].
+  exists buf. split; [reflexivity|]. split; [exact Hl|].
+  apply (bounded_fine (zlen buf)); [unfold MEM_SAFE, MAX_MSG in *; lia | apply (fit_bounded 33); exact Hf].
+Qed.
+
+(* indefinite-length headers - the former nesting witness - never reach the library *)
+Lemma ldap_indefinite_refused b0 r : ldap_first (b0 :: 128%N :: r) = Some RErr.
+Proof.
+  unfold ldap_first, ldap_envelope. destruct (N.land b0 31 =? 31)%N; reflexivity.
 Qed.
 
 (* ------------------------------------------------------------------ *)
-(* 7. the full statement (spelled out; Properties.v names it C01_full / C01_outside) *)
+(* 8. the full statement (spelled out; Properties.v names it C01_full) *)
 
-Lemma full_refuted : ~ (
+Lemma full_holds :
   (forall ty p, ssh_request ty p = ROk) /\
   (forall rs, ssh_requests rs = ROk) /\
   (forall stream, vnc_handle stream = ROk) /\
@@ -397,28 +545,15 @@ Lemma full_refuted : ~ (
   (forall dg, cs_handle dg = ROk \/ cs_handle dg = RPanic 1) /\
   (forall segs, adb_handle segs = ROk \/ adb_handle segs = RPanic 2) /\
   (forall dg s, snmp_first dg <> Some (RFatal s)) /\
+  (forall dg fuel, wf_bytes dg = true -> snmp_first dg = None ->
+     Forall (fun L => alloc_verdict L = 0%N) (lib_allocs fuel (snmp_buf dg))) /\
   (forall st s, ldap_first st <> Some (RFatal s)) /\
-  (forall seg rep s, ldap_nest seg rep <> Some (RFatal s))).
-Proof.
-  intros (_ & _ & _ & _ & _ & _ & H & _).
-  apply (H [48; 133; 64; 0; 0; 0; 0]%N F_ALLOC). vm_compute. reflexivity.
-Qed.
-
-Lemma outside_findings :
-  (forall ty p, ssh_request ty p = ROk) /\
-  (forall rs, ssh_requests rs = ROk) /\
-  (forall stream, vnc_handle stream = ROk) /\
-  (forall dgss sched, trun (t_init (map (tftp_thread false) dgss)) sched <> TFatal) /\
-  (forall dg, cs_handle dg = ROk \/ cs_handle dg = RPanic 1) /\
-  (forall segs, adb_handle segs = ROk \/ adb_handle segs = RPanic 2) /\
-  (forall dg s, in_oom_class (snmp_tlv dg) = false -> snmp_first dg <> Some (RFatal s)) /\
-  (forall st s, in_oom_class (ldap_tlv st) = false -> ldap_first st <> Some (RFatal s)) /\
-  (forall seg rep s, ldap_depth seg rep < STACK_SURE -> ldap_nest seg rep <> Some (RFatal s)).
+  (forall st fuel, ldap_first st = None ->
+     exists buf, ldap_envelope st = EOk buf /\ zlen buf <= MAX_MSG + 6 /\
+                 Forall (fun L => alloc_verdict L = 0%N) (lib_allocs fuel buf)).
 Proof.
   split; [exact ssh_request_ok|]. split; [exact ssh_requests_ok|]. split; [exact vnc_handle_ok|].
   split; [exact tftp_no_schedule_fatal|]. split; [exact cs_never_fatal|]. split; [exact adb_never_fatal|].
-  split; [|split].
-  - intros dg s Hc H. unfold snmp_first in H. apply res_of_tlv_fatal_iff in H as [H _]. congruence.
-  - intros st s Hc H. unfold ldap_first in H. apply res_of_tlv_fatal_iff in H as [H _]. congruence.
-  - intros seg rep s Hd H. apply ldap_nest_fatal_iff in H as [H _]. lia.
+  split; [exact snmp_never_fatal|]. split; [exact snmp_library_allocs_fine|].
+  split; [exact ldap_never_fatal | exact ldap_library_allocs_fine].
 Qed.
